@@ -134,7 +134,7 @@ def replay_unit(case):
 @st.composite
 def unit_cases(draw):
     D = draw(st.integers(1, 3))
-    e = draw(st.integers(-12, -1))
+    e = -draw(st.integers(1, 12))  # (a negative-only integer range is rejected by fuzz_one_input)
     tol = 2.0**e
     hstep = tol * draw(st.sampled_from([1, 1, 2, 8]))
     lat = st.integers(-4, 4)
@@ -227,10 +227,13 @@ def body_run(scn):
 
 
 def plan(tier):
-    return [("exhaustive", 16), ("unit", 8), ("runs", 16)]
+    return [("exhaustive", 16), ("unit", 8), ("runs", 16)] + ([("fuzz", 16)] if tier == "thorough" else [])
 
 
 def run_part(res, part, tier, seed, shard, nshards):
+    if part == "fuzz":
+        # coverage-guided campaign (atheris/libFuzzer) on the same Hypothesis test, empty corpus, fixed -runs and -seed
+        return engine.run_fuzz_part(res, "C17", "fuzz", 20000, seed, shard)
     if part == "exhaustive":
         run_exhaustive(res, tier, shard, nshards)
     elif part == "unit":
@@ -243,7 +246,7 @@ def run_part(res, part, tier, seed, shard, nshards):
 def minimise(part, tier, sig, case, seed):
     if part == "runs":
         return runlevel.field_minimise(case, sig, body_run, max_runs=12 if tier == "quick" else 40)
-    if part == "unit":
+    if part in ("unit", "fuzz"):
         m = engine.hyp_minimise(unit_cases(), lambda c: any(engine.signature(x) == sig for x in body_unit(c)["violations"]), 3000, seed)
         return {"case": m or case, "note": "hypothesis shrink" if m else "unminimised"}
     return {"case": case, "note": "exhaustive lattice case"}
@@ -257,3 +260,7 @@ def replay(part, case):
 
 def floors(tier):
     return {"exh:nontrivial": 500, "unit:nontrivial": 100, "run:optimum-on-or-outside": 30}
+
+
+def fuzz_entry(entry):
+    return unit_cases(), body_unit
